@@ -12,7 +12,9 @@
 //! (b) type-directed random programs with faults and ON ERROR, (c) every built-in with every statically
 //! admissible argument type tuple in eight argument shapes at boundary values, (d) the statement-level
 //! repertoire (DIM/REDIM, TYPE, STRING * n, SHARED, STATIC, recursion, DEF SEG/PEEK/POKE, files,
-//! PRINT USING, LPRINT, INPUT / LINE INPUT with arbitrary bytes, READ with arbitrary DATA).
+//! PRINT USING, LPRINT, INPUT / LINE INPUT with arbitrary bytes, READ with arbitrary DATA), (c'') / (d') non-scalar
+//! values (records, whole arrays, fixed-length strings, record fields, undefined-function calls) in every
+//! argument position of every built-in and every expression position of the statement repertoire.
 //! A sample of the accepted programs is also given to the proved checker `wfCheck` (Lean driver), the
 //! hypothesis of theorem `wf_no_vm_failure`; observed error codes are compared with the extracted table.
 
@@ -377,6 +379,209 @@ fn nested_inputs(out: &mut Vec<Input>) {
                     out.push(Input { family: format!("nested:{}", b.name), text: t, stdin: vec![] });
                 }
             }
+        }
+    }
+}
+
+/// (c'') every built-in with, in each argument position in turn (and in all positions at once), each of the
+/// non-scalar kinds of `bi::odd_kinds` (bare and in parentheses): record variable, record-typed array
+/// element, record-valued field, whole array with and without `()`, fixed-length string, record field of
+/// each type, undefined-function call, unassigned variable. The other positions hold variables of a type
+/// tuple the front end accepts for that arity. Whatever the checker lets through must run.
+fn odd_builtin_inputs(accepted: &[(usize, Vec<Ty>)], thorough: bool, out: &mut Vec<Input>) {
+    let all = bi::built_ins();
+    let kinds = bi::odd_kinds(true);
+    let mut bases: BTreeMap<(usize, usize), Vec<Vec<Ty>>> = BTreeMap::new();
+    for (k, tys) in accepted {
+        if !tys.is_empty() {
+            bases.entry((*k, tys.len())).or_default().push(tys.clone());
+        }
+    }
+    // arities for which no scalar tuple is accepted are still tried (all-INTEGER base): a checker that
+    // forgets the arity test for odd arguments must not get through
+    for (k, b) in all.iter().enumerate() {
+        for ar in b.arities.iter().filter(|a| **a > 0 && **a <= 2) {
+            bases.entry((k, *ar)).or_insert_with(|| vec![vec![Ty::Int; *ar]]);
+        }
+    }
+    for ((k, ar), tuples) in bases.iter() {
+        let b = &all[*k];
+        // first and (thorough: also last) accepted tuple of the arity as the base
+        let mut chosen: Vec<&Vec<Ty>> = vec![&tuples[0]];
+        if thorough && tuples.len() > 1 {
+            chosen.push(&tuples[tuples.len() - 1]);
+        }
+        let ctx = *b.ctxs.last().unwrap_or(&Ctx::NoFile);
+        let (data, stdin): (&str, Vec<u8>) = match b.special {
+            Special::Data => ("DATA 1, 2, 3", vec![]),
+            Special::Console => ("", b"1,2,3\n4\n".to_vec()),
+            _ => ("", b"5\n".to_vec()),
+        };
+        for tys in chosen {
+            for (_, text) in kinds.iter() {
+                let mut position_sets: Vec<Vec<usize>> = (0..*ar).map(|i| vec![i]).collect();
+                if *ar > 1 {
+                    position_sets.push((0..*ar).collect());
+                }
+                for at in position_sets {
+                    out.push(Input {
+                        family: format!("odd-arg:{}", b.name),
+                        text: bi::program_with_odd(b, ctx, tys, &at, text, data),
+                        stdin: stdin.clone(),
+                    });
+                }
+            }
+        }
+    }
+}
+
+/// (d') the same non-scalar kinds, and a scalar of every type, in every expression position of the
+/// statement repertoire: PRINT / LPRINT / PRINT USING / PRINT # items, both sides of an assignment, operands
+/// of every operator, conditions, FOR bounds / step / counter, SELECT CASE selector and CASE values, array
+/// subscripts and DIM bounds, arguments of user-defined subs and functions of every parameter kind, CONST,
+/// INPUT / LINE INPUT / READ targets, file names, record lengths, file numbers, FIELD widths and variables.
+fn odd_statement_inputs(out: &mut Vec<Input>) {
+    let mut xs: Vec<String> = bi::odd_kinds(true).into_iter().map(|(_, t)| t).collect();
+    for t in ["1", "70000", "1.5", "2.5#", "\"s\"", "V1%", "V2&", "V3!", "V4#", "V5$", "(V5$)", "-V1%", "V5$ + \"x\""] {
+        xs.push(t.to_string());
+    }
+    let scalars = "V1% = 2\nV2& = 70000\nV3! = 1.5\nV4# = 2.5\nV5$ = \"s\"\n";
+    let subs = "SUB SUBV (P)\nEND SUB\nSUB SUBI (P%)\nEND SUB\nSUB SUBS (P$)\nEND SUB\nSUB SUBR (P AS REC)\nEND SUB\nSUB SUBA (P())\nEND SUB\nSUB SUBAS (P$())\nEND SUB\n\
+FUNCTION FNV (P)\n FNV = 1\nEND FUNCTION\nFUNCTION FNS$ (P$)\n FNS$ = P$\nEND FUNCTION\nFUNCTION FNR (P AS REC)\n FNR = P.I\nEND FUNCTION\nFUNCTION FNA (P%())\n FNA = 1\nEND FUNCTION\n";
+    let rnd = "OPEN \"F1.DAT\" FOR RANDOM AS #1 LEN = 16\nFIELD #1, 8 AS FA$, 8 AS FB$\n";
+    let outp = "OPEN \"F1.DAT\" FOR OUTPUT AS #1\n";
+    // (prefix, statement with {x}, needs the subs/functions)
+    let templates: Vec<(&str, &str, bool)> = vec![
+        ("", "PRINT {x}", false),
+        ("", "PRINT {x}; 1", false),
+        ("", "PRINT 1, {x};", false),
+        ("", "PRINT {x}, {x}", false),
+        ("", "LPRINT {x}", false),
+        ("", "LPRINT 1; {x},", false),
+        ("", "PRINT USING \"#\"; {x}", false),
+        ("", "PRINT USING \"&\"; {x}", false),
+        ("", "PRINT USING {x}; 1", false),
+        ("", "LPRINT USING \"#\"; {x}", false),
+        (outp, "PRINT #1, {x}", false),
+        (outp, "PRINT #1, USING \"#\"; {x}", false),
+        ("", "Z = {x}", false),
+        ("", "Z$ = {x}", false),
+        ("", "Z% = {x}", false),
+        ("", "ZR = {x}", false),
+        ("", "RQ = {x}", false),
+        ("", "RQA(1) = {x}", false),
+        ("", "FQ = {x}", false),
+        ("", "RQ.T = {x}", false),
+        ("", "RQ.I = {x}", false),
+        ("", "WI%(1) = {x}", false),
+        ("", "{x} = 1", false),
+        ("", "{x} = \"s\"", false),
+        ("", "{x} = {x}", false),
+        ("", "{x} = RQ", false),
+        ("", "Z = {x} + 1", false),
+        ("", "Z = 1 - {x}", false),
+        ("", "Z = {x} * {x}", false),
+        ("", "Z = 1 / {x}", false),
+        ("", "Z = {x} MOD 2", false),
+        ("", "Z$ = \"a\" + {x}", false),
+        ("", "Z$ = {x} + \"a\"", false),
+        ("", "Z = -{x}", false),
+        ("", "Z = NOT {x}", false),
+        ("", "Z = {x} AND 1", false),
+        ("", "Z = 1 OR {x}", false),
+        ("", "Z = {x} = {x}", false),
+        ("", "Z = {x} < 1", false),
+        ("", "Z = \"a\" >= {x}", false),
+        ("", "Z = {x} <> RQ", false),
+        ("", "IF {x} THEN\nEND IF", false),
+        ("", "IF {x} = 1 THEN\nPRINT 1\nELSEIF {x} THEN\nPRINT 2\nEND IF", false),
+        ("", "IF {x} THEN PRINT 1 ELSE PRINT 2", false),
+        ("", "WHILE {x}\nWEND", false),
+        ("", "DO WHILE {x}\nLOOP", false),
+        ("", "DO\nLOOP UNTIL {x}", false),
+        ("", "DO UNTIL {x}\nLOOP", false),
+        ("", "FOR I = {x} TO 3\nNEXT", false),
+        ("", "FOR I = 1 TO {x}\nNEXT", false),
+        ("", "FOR I = 1 TO 3 STEP {x}\nNEXT", false),
+        ("", "FOR I% = {x} TO {x} STEP {x}\nNEXT", false),
+        ("", "FOR {x} = 1 TO 2\nNEXT", false),
+        ("", "FOR {x} = 1 TO 2\nNEXT {x}", false),
+        ("", "SELECT CASE {x}\nCASE 1\nPRINT 1\nCASE ELSE\nEND SELECT", false),
+        ("", "SELECT CASE {x}\nCASE \"s\"\nEND SELECT", false),
+        ("", "SELECT CASE 1\nCASE {x}\nEND SELECT", false),
+        ("", "SELECT CASE 1\nCASE 0 TO {x}\nEND SELECT", false),
+        ("", "SELECT CASE 1\nCASE {x} TO 5\nEND SELECT", false),
+        ("", "SELECT CASE 1\nCASE IS > {x}\nEND SELECT", false),
+        ("", "SELECT CASE {x}\nCASE {x}\nEND SELECT", false),
+        ("", "DIM ZA(1 TO 3)\nZA({x}) = 1", false),
+        ("", "DIM ZA(1 TO 3)\nPRINT ZA({x})", false),
+        ("", "DIM ZA(1 TO 3, 1 TO 3)\nPRINT ZA(1, {x})", false),
+        ("", "PRINT WI%({x}); RQA({x}).I", false),
+        ("", "DIM ZB({x})", false),
+        ("", "DIM ZB(1 TO {x})", false),
+        ("", "DIM ZB({x} TO 5) AS REC", false),
+        ("", "REDIM ZB({x})", false),
+        ("", "DIM ZB(2) AS STRING * 4\nZB({x}) = {x}", false),
+        ("", "CONST CQ = {x}", false),
+        ("", "CONST CQ = {x} + 1", false),
+        ("", "SUBV {x}", true),
+        ("", "SUBI {x}", true),
+        ("", "SUBS {x}", true),
+        ("", "SUBR {x}", true),
+        ("", "SUBA {x}", true),
+        ("", "SUBAS {x}", true),
+        ("", "CALL SUBV({x})", true),
+        ("", "Z = FNV({x})", true),
+        ("", "Z$ = FNS$({x})", true),
+        ("", "Z = FNR({x})", true),
+        ("", "Z = FNA({x})", true),
+        ("", "PRINT FNV(({x}))", true),
+        ("", "Z = {x}.I", false),
+        ("", "Z = {x}(1)", false),
+        ("", "INPUT {x}", false),
+        ("", "INPUT Z, {x}", false),
+        ("", "LINE INPUT {x}", false),
+        ("DATA 1, \"a\", 2\n", "READ {x}", false),
+        ("DATA 1, \"a\", 2\n", "READ Z, {x}", false),
+        (outp, "CLOSE\nOPEN \"F1.DAT\" FOR INPUT AS #1\nINPUT #1, {x}", false),
+        (outp, "CLOSE\nOPEN \"F1.DAT\" FOR INPUT AS #1\nLINE INPUT #1, {x}", false),
+        ("", "OPEN {x} FOR OUTPUT AS #1", false),
+        ("", "OPEN \"F1.DAT\" FOR RANDOM AS #1 LEN = {x}", false),
+        ("", "OPEN \"F1.DAT\" FOR OUTPUT AS {x}", false),
+        (rnd, "CLOSE {x}", false),
+        (rnd, "FIELD #1, {x} AS FZ$", false),
+        (rnd, "FIELD #1, 4 AS {x}", false),
+        (rnd, "LSET {x} = \"a\"", false),
+        (rnd, "LSET FA$ = {x}", false),
+        (rnd, "GET #1, {x}", false),
+        (rnd, "PUT #1, {x}", false),
+        ("", "NAME {x} AS \"b\"", false),
+        ("", "NAME \"a\" AS {x}", false),
+        ("", "KILL {x}", false),
+        ("", "DEF SEG = {x}", false),
+        ("", "POKE {x}, {x}", false),
+        ("", "VIEW PRINT {x} TO 5", false),
+        ("", "LOCATE {x}, {x}", false),
+        ("", "COLOR {x}", false),
+        ("", "WIDTH {x}", false),
+        ("", "ENVIRON {x}", false),
+        ("", "ON ERROR GOTO H\nZ = {x}\nEND\nH:\nPRINT ERR; {x}\nRESUME NEXT", false),
+        ("", "GOSUB G\nEND\nG:\nPRINT {x}\nRETURN", false),
+        ("", "PRINT LEN({x}); VARPTR({x}); VARSEG({x})", false),
+        ("", "PRINT LBOUND({x}); UBOUND({x}, 1)", false),
+        ("", "PRINT UBOUND(WD#, {x})", false),
+    ];
+    for (prefix, st, needs_subs) in templates.iter() {
+        for x in xs.iter() {
+            let mut t = String::from(bi::ODD_PRELUDE);
+            t.push_str(scalars);
+            t.push_str(prefix);
+            t.push_str(&st.replace("{x}", x));
+            t.push('\n');
+            if *needs_subs {
+                t.push_str(subs);
+            }
+            out.push(Input { family: "stmt:odd-operand".into(), text: t, stdin: b"1,2\nabc\n".to_vec() });
         }
     }
 }
@@ -803,9 +1008,13 @@ fn main() {
          every fixture, with fixed and random input bytes; (b) type-directed random programs with run-time faults and ON ERROR; (c) every built-in \
          function and sub with every argument type tuple (arity <= 3) the front end accepts, arguments written as variable, literal, parenthesised, \
          user-function call, array element, record field, field of an array element, nested built-in, at boundary values (zero, +-1, type limits, \
-         empty / long / non-ASCII strings), in every file context; (d) statement-level templates: DIM/REDIM up to 4 dimensions with boundary bounds and \
+         empty / long / non-ASCII strings), in every file context, and with each non-scalar kind (record variable, record-typed array element, \
+         record-valued field, whole array with and without (), fixed-length string, record field of each type, undefined-function call, unassigned variable; \
+         bare and parenthesised) in each argument position; (d) statement-level templates: DIM/REDIM up to 4 dimensions with boundary bounds and \
          every element type, nested TYPEs, STRING * n, SHARED/STATIC, recursion, DEF SEG/PEEK/POKE/VARPTR/VARSEG on every kind of variable, file \
-         statements, PRINT USING, LPRINT, INPUT / LINE INPUT with arbitrary bytes, READ with arbitrary DATA. Oracle: the end is normal, budget, or a \
+         statements, PRINT USING, LPRINT, INPUT / LINE INPUT with arbitrary bytes, READ with arbitrary DATA; about 120 statement templates with a scalar of every type and \
+         every non-scalar kind in each expression position (PRINT items, assignment sides, operands, conditions, FOR bounds, CASE values, subscripts, DIM bounds, \
+         user SUB/FUNCTION arguments, INPUT/READ targets, file names and numbers). Oracle: the end is normal, budget, or a \
          RuntimeError with a code and a position; never a panic, abort or hang. distinct = distinct accepted (program, input) pairs; rejected programs are trivial.",
     );
     let thorough = rep.is_thorough();
@@ -855,6 +1064,8 @@ fn main() {
     builtin_inputs(&mut rng, &accepted, thorough, &mut inputs);
     statement_inputs(&mut rng, thorough, &mut inputs);
     nested_inputs(&mut inputs);
+    odd_builtin_inputs(&accepted, thorough, &mut inputs);
+    odd_statement_inputs(&mut inputs);
     // the probes that did not end in a verdict are re-run as ordinary inputs
     for ((_, _, inp), r) in probes.iter().zip(probe_res.iter()) {
         if !matches!(r, Res::Done(Outcome::Rejected(_)) | Res::Done(Outcome::Ok) | Res::Done(Outcome::Budget) | Res::Done(Outcome::Err { .. })) {
